@@ -637,6 +637,11 @@ where
         if extension_degree != ExtensionDegree::try_from(first_proof.d1.len())? {
             return Err(ProofError::InvalidArgument("Inconsistent extension degree".to_string()));
         }
+        // The fields of the Pedersen generators are public, so the number of `G` generators may not match the extension
+        // degree; this must be refused before they are paired with that many scalars
+        if g_base_vec.len() != extension_degree as usize {
+            return Err(ProofError::InvalidArgument("Inconsistent extension degree".to_string()));
+        }
         for (i, (statement, proof)) in statements.iter().zip(range_proofs.iter()).enumerate().skip(1) {
             if g_base_vec != statement.generators.g_bases() {
                 return Err(ProofError::InvalidArgument(
